@@ -25,7 +25,7 @@ from . import common
 ID = "C17"
 RULE = ("seed envelopes from the description generator (reference encoder, both CWT payload forms) and the byte strings "
         "of tests/test_cbor_out_of_spec.py; for every node of the expanded tree (bstr-wrapped CBOR is expanded; quick tier: at most 300 sampled nodes per seed) "
-        "replacement by k of 45 type representatives (incl. big VALUES: 4 KiB bignums, 16 KiB strings, always under tracemalloc) (quick k=4, thorough all), inflated length fields, plain "
+        "replacement by k of 65 type representatives (incl. 20 tags with semantic decoders in the CBOR library - sets, fractions, dates, UUIDs, patterns ... - and big VALUES: 4 KiB bignums, 16 KiB strings, always under tracemalloc) (quick k=4, thorough all), inflated length fields, plain "
         "array/map/tag nesting 1..500 and bstr-wrapped try-each/run-sequence nesting 1..64,100,200,300,1000; 13 wide "
         "families (one element kind repeated n and 4n times: step growth and CPU-time growth); byte "
         "level: truncations (all positions for inputs <= 400 B, else 200), edits biased to header bytes, splices; "
